@@ -23,7 +23,7 @@ Kinds == FastNumKinds \cup SlowNumKinds \cup OtherKinds
 VARIABLES op, lit, kind
 vars == <<op, lit, kind>>
 Init == op \in Ops /\ lit \in Lits /\ kind \in Kinds
-Next == op' \in Ops /\ lit' \in Lits /\ kind' \in Kinds
+Next == UNCHANGED vars   \* pure enumeration: every combination is an initial state
 Spec == Init /\ [][Next]_vars
 
 \* fastCompare.eval: handles the value itself (TRUE) or declines (FALSE)
